@@ -34,6 +34,53 @@ Fixpoint msg_syms (pre : list str) (m : dmsg) {struct m} : list (list str) :=
 Definition file_syms (ms : list dmsg) (es : list denum) : list (list str) :=
   flat_map (msg_syms []) ms ++ map (fun e => [en_name e]) es.
 
+(* ------------------------------------------------------------------ the linker's symbol table *)
+(* Every symbol a file defines, fully qualified (without the leading dot): messages, their
+   fields, nested messages and enums; enums and their values - a value lives in the scope that
+   encloses its enum -; services and their methods.  protocompile (linker/symbols.go) rejects a
+   file that defines a symbol twice, or one that a file linked before already defines. *)
+Definition qual (scope n : str) : str := scope ++ dot ++ n.
+
+Definition enum_symbols (scope : str) (e : denum) : list str :=
+  qual scope (en_name e) :: map (fun v => qual scope (fst v)) (en_vals e).
+
+Fixpoint msg_symbols (scope : str) (m : dmsg) {struct m} : list str :=
+  match m with
+  | DMsg n _ fs ms es =>
+      let me := qual scope n in
+      me :: map (fun f => qual me (f_name f)) fs ++
+      (fix go (l : list dmsg) : list str :=
+         match l with
+         | [] => []
+         | x :: r => msg_symbols me x ++ go r
+         end) ms ++
+      flat_map (enum_symbols me) es
+  end.
+
+Definition svc_symbols (scope : str) (s : dservice) : list str :=
+  qual scope (ds_name s) :: map (fun m => qual (qual scope (ds_name s)) (me_name m)) (ds_methods s).
+
+Definition file_symbols (f : dfile) : list str :=
+  flat_map (msg_symbols (fl_pkg f)) (fl_msgs f) ++
+  flat_map (enum_symbols (fl_pkg f)) (fl_enums f) ++
+  flat_map (svc_symbols (fl_pkg f)) (fl_svcs f).
+
+(* the symbols of the hand-written .proto files of a package (they are linked together with it) *)
+Definition pfile_symbols (p : pfile) : list str :=
+  map (qual (pfile_pkg p)) (pf_msgs p ++ pf_enums p ++ pf_values p).
+
+Definition pkg_pfile_symbols (bd : bundle) (pkg : str) : list str :=
+  flat_map (fun f => match f with
+                     | BP p => if str_eqb (pfile_pkg p) pkg then pfile_symbols p else []
+                     | BJ _ => []
+                     end) bd.
+
+Fixpoint nodup_str (l : list str) : bool :=
+  match l with
+  | [] => true
+  | x :: r => negb (existsb (str_eqb x) r) && nodup_str r
+  end.
+
 (* qualifyTypeNames for one field of the message at [scope] whose nested messages are [nested] *)
 Definition link_name (nested : list str) (fpkg : str) (scope : list str) (tn : str) : str :=
   match tn with
